@@ -1,11 +1,15 @@
 import GB.Base.Proto
 import GB.C20.Model
 import GB.C20.Spec
+import GB.C20.Bridge
+import GB.C03.Driver
 /-
   C20 driver. Case lines (byte strings hex-encoded, lists comma-separated, `-` = empty list):
 
     gw <tmpl>    => err | ok <String()> <OpCodes> <Pool> <Verb> <Fields>     gwbased Parse + Compile
     st <tmpl>    => err | ok <VerifDump()>                                   strict Parse
+    ga <tmpl>    => ERR | <ast>                                              gwbased Parse, structural export, in the
+                                                                             format of the C03 slice (`C03.showAst`)
     gtok <path>  => <tokens> <verb>                                          gwbased tokenize
     stok <path>  => <tokens>                                                 strict tokenize
     trie <method:tmpl,…> <method> <path> => none | found <tmpl>              strict Trie Add*/Find
@@ -155,6 +159,15 @@ def handle : Handler
   | ["st", hx], out =>
     match parseHex hx with
     | some s => handleSt s out
+    | none => "BAD hex"
+  | ["ga", hx], out =>
+    match parseHex hx with
+    | some s =>
+      -- the adapter `toC03` applied to the parser model's result, rendered the way C03 renders its AST
+      let m := match gwParse s with
+        | .ok g => C03.showAst (toC03 g)
+        | .error _ => "ERR"
+      if " ".intercalate out != m then s!"DIFF model={m}" else (if m == "ERR" then "OK b=ga-err" else "OK nt b=ga-ast")
     | none => "BAD hex"
   | ["gtok", hx], out =>
     match parseHex hx with
